@@ -611,6 +611,13 @@ class ClientSSM(SSM):
             if _debug: ClientSSM._debug("    - no response, try again (%d < %d)", self.retryCount, self.numberOfApduRetries)
             self.retryCount += 1
 
+            # the peer may have announced itself (I-Am) since the request
+            # was first sent, what it said then governs the retry
+            if self.device_info is None:
+                self.device_info = self.ssmSAP.deviceInfoCache.get_device_info(self.pdu_address)
+                if self.device_info:
+                    self.ssmSAP.deviceInfoCache.acquire(self.pdu_address)
+
             # save the retry count, indication acts like the request is coming
             # from the application so the retryCount gets re-initialized.
             saveCount = self.retryCount
